@@ -149,3 +149,14 @@ for p in list(NOT_APPLICABLE):
         del NOT_APPLICABLE[p]
 for e in ENGINES:
     e['serves_properties'] = sorted(CHECKS)
+
+_c('C05', 'model_checking',
+   'stateless deviation-bounded schedule search over racing end causes on the real servers, with a per-session event automaton as monitor',
+   'For polling, upgraded and WebSocket-only sessions with a bystander: every single end cause and every ordered pair (thorough: some triples) among client CLOSE by POST or frame, disconnect(sid), disconnect(), protocol error, oversize POST, peer closing the socket, send after the heartbeat deadline and silence runs as parallel scripts under every interleaving and up to 1 (thorough 2) deviations, for five disconnect-handler behaviours (record, raise, yield, re-enter disconnect, re-enter send) and a raising message handler; afterwards late traffic (poll, POST MESSAGE, frame, another disconnect, send) and ~9 s of virtual time. The monitor requires connect first and once, exactly one disconnect whose reason belongs to a cause delivered before the event fired, nothing after it, cleanup despite handler exceptions, bystander unaffected.',
+   'Zero-time computation; threaded schedules at synchronisation-operation granularity (the check-then-set window inside Socket.close is below that granularity); livelock = no quiescence within the step cap.',
+   'DESIGN.md 5 C05')
+for p in list(NOT_APPLICABLE):
+    if p in CHECKS:
+        del NOT_APPLICABLE[p]
+for e in ENGINES:
+    e['serves_properties'] = sorted(CHECKS)
